@@ -82,8 +82,6 @@ def run_pairs(scenarios, model_ok=True):
     lines = [scenario_line(s) for s in scenarios]
     reals = runner.parallel_map('coreutil', 'real_one', js)
     models = runner.model_run(lines) if model_ok else [None] * len(lines)
-    # not in the model yet: failure of the selector's constructor (judged by the oracles only)
-    models = [None if s.conn == 'selfail' else m for s, m in zip(scenarios, models)]
     return list(zip(js, lines, reals, models))
 
 
